@@ -23,6 +23,9 @@ type SkipCase struct {
 	Deps    [][2]int   `json:"deps"`
 	FileDep []string   `json:"file_dep"` // per task: "" none, else a file or glob
 	Steps   []SkipStep `json:"steps"`
+	// SpokLink: the project's spokfile is a symbolic link to ../shared/real.spok; the project (globs,
+	// literal files, cache) is still the directory the link is in, not the one its target is in
+	SpokLink bool `json:"spok_link,omitempty"`
 }
 
 // SkipStep is one invocation or edit.
@@ -36,12 +39,16 @@ type SkipStep struct {
 }
 
 var skipFiles = []string{"in.txt", "src/a.go", "src/b.go", "data.json"}
+
+// files of the same names in a sibling directory: never part of the project
+var skipOutside = []string{"../shared/in.txt", "../shared/src/a.go", "../shared/data.json"}
 var skipDeps = []string{"", "in.txt", "src/*.go", "**/*.go", "data.json", "*.txt"}
 var skipFlagSets = [][]string{nil, nil, {"--json"}, {"--quiet"}, {"--debug"}, {"--json", "--quiet"}}
 
 func genSkip(t *rapid.T) SkipCase {
 	c := genSkipBody(t)
 	c.ProjDir = genProjDir(t)
+	c.SpokLink = rapid.IntRange(0, 3).Draw(t, "spok_link") == 0
 	return c
 }
 
@@ -60,6 +67,10 @@ func genSkipBody(t *rapid.T) SkipCase {
 	ns := rapid.IntRange(2, 6).Draw(t, "nsteps")
 	for i := 0; i < ns; i++ {
 		if i > 0 && rapid.IntRange(0, 2).Draw(t, "edit") == 0 {
+			if rapid.IntRange(0, 4).Draw(t, "outside") == 0 {
+				c.Steps = append(c.Steps, SkipStep{Edit: rapid.SampledFrom(skipOutside).Draw(t, "ofile")})
+				continue
+			}
 			c.Steps = append(c.Steps, SkipStep{Edit: rapid.SampledFrom(skipFiles).Draw(t, "file")})
 			continue
 		}
@@ -102,6 +113,9 @@ func (c SkipCase) source() string {
 }
 
 func skipMatches(dep, file string) bool {
+	if strings.HasPrefix(file, "../") {
+		return false
+	}
 	switch dep {
 	case "":
 		return false
@@ -125,8 +139,23 @@ func execSkip(id string, s *ev.Shard, b *sandbox.Box, c SkipCase) *rp.Fail {
 	if err := writeProject(b, b.Proj, files); err != nil {
 		return &rp.Fail{Sig: "harness", Msg: err.Error()}
 	}
-	if err := writeProject(b, b.Home, map[string]string{"elsewhere/": ""}); err != nil {
+	outside := map[string]string{"elsewhere/": ""}
+	for _, f := range skipOutside {
+		outside[strings.TrimPrefix(f, "../")] = "v0"
+	}
+	if c.SpokLink {
+		outside["shared/real.spok"] = src
+	}
+	if err := writeProject(b, b.Home, outside); err != nil {
 		return &rp.Fail{Sig: "harness", Msg: err.Error()}
+	}
+	if c.SpokLink {
+		lp := filepath.Join(b.Proj, "spokfile")
+		_ = os.Remove(lp)
+		if err := os.Symlink(filepath.Join("..", "shared", "real.spok"), lp); err != nil {
+			return &rp.Fail{Sig: "harness", Msg: err.Error()}
+		}
+		_ = b.Own()
 	}
 	logPath := filepath.Join(b.Home, "run.log")
 	env := []string{"LOG=" + logPath}
@@ -178,7 +207,7 @@ func execSkip(id string, s *ev.Shard, b *sandbox.Box, c SkipCase) *rp.Fail {
 		}
 		r := b.Run(cwd, env, runTimeout, args...)
 		log := readLog(logPath)
-		desc := fmt.Sprintf("spokfile:\n%sstep %d of %+v: `spok %s` from %s (exit %d, log %v)", src, si, c.Steps, strings.Join(args, " "), map[bool]string{true: "nested/dir", false: map[bool]string{true: "another directory with --spokfile", false: "the project root"}[st.Elsewhere]}[st.Nested], r.Exit, log)
+		desc := fmt.Sprintf("spokfile%s:\n%sstep %d of %+v: `spok %s` from %s (exit %d, log %v)", map[bool]string{true: " (a symbolic link to ../shared/real.spok)"}[c.SpokLink], src, si, c.Steps, strings.Join(args, " "), map[bool]string{true: "nested/dir", false: map[bool]string{true: "another directory with --spokfile", false: "the project root"}[st.Elsewhere]}[st.Nested], r.Exit, log)
 		if r.Exit != 0 {
 			return &rp.Fail{Sig: "valid-run-failed", Size: size, Msg: desc + ": " + sandbox.Strip(r.Stderr)}
 		}
@@ -186,13 +215,13 @@ func execSkip(id string, s *ev.Shard, b *sandbox.Box, c SkipCase) *rp.Fail {
 			ran := contains(log, fmt.Sprintf("ran%d", i))
 			mustRun := c.FileDep[i] == "" || dirty[i] == nil || *dirty[i]
 			switch {
-			case mustRun && !ran && id == "C01":
+			case mustRun && !ran && id != "C02":
 				why := "it has no file dependency"
 				if c.FileDep[i] != "" {
 					why = "a file it depends on was edited since its last run (or it never ran)"
 				}
 				return &rp.Fail{Sig: "wrong-skip", Size: size, Msg: fmt.Sprintf("%s: task %s did not run although %s", desc, c.name(i), why)}
-			case !mustRun && ran && id == "C02":
+			case !mustRun && ran && id != "C01":
 				return &rp.Fail{Sig: "needless-rerun", Size: size, Msg: fmt.Sprintf("%s: task %s ran again although none of its dependency files changed since its last successful run", desc, c.name(i))}
 			}
 			if ran {
@@ -205,7 +234,10 @@ func execSkip(id string, s *ev.Shard, b *sandbox.Box, c SkipCase) *rp.Fail {
 		}
 	}
 	if s != nil && sawSkip && sawRerun {
-		s.NonTrivial("skipbin:" + src + fmt.Sprint(c.Steps))
+		s.NonTrivial("skipbin:" + src + fmt.Sprint(c.Steps, c.SpokLink, c.ProjDir))
+		if c.SpokLink {
+			s.Class("spokfile_is_link_into_another_directory")
+		}
 	}
 	return nil
 }
